@@ -13,6 +13,8 @@ model `Model/Gamm`) is the bit-exact pool math.  This file closes the gap:
   2. `mathIsGamm cfg s ops` ties every pool-model result of every op line of a history to the Model/Gamm function applied
      to the pool record in the state in which the keeper makes the call (through the static configuration `cfg`: weights,
      scaling factors, swap fee); `entireReserveSwaps s ops` lists the F13 events of the history;
+     (`lpMathIsGamm` is the weaker tie the ledger theorems need: only all-asset join / exit / exit-swap results tied;
+     swap results may then be ANY numbers);
   3. COMPOSED THEOREMS, over all histories with `mathIsGamm`: inside the contract ⇔ no F13 event
      (`contract_iff_no_entire_reserve_swap`); pool account = reserves + donations, share supply = reported total, supply =
      Σ balances, token supply = minted (`conservation`), unconditional for equal-weight pools
@@ -126,7 +128,7 @@ theorem join_in_contract_keeper (cfg : Cfg) {s s' : State} {u id : Nat} {shareOu
 
 /-! ## 2. histories whose pool math is Model/Gamm's -/
 
-/-- the hypotheses of the composed theorems: a sane static configuration (positive weights, swap fee in [0,1]), pool
+/-- the hypotheses of the composed theorems in their natural form: a sane static configuration (positive weights, swap fee in [0,1]), pool
 creations listing distinct denom names, and EVERY pool-model result on every op line being the Model/Gamm result on the
 record in the state in which the keeper makes that call. -/
 structure GammHistory (cfg : Cfg) (n : Nat) (ops : List Op) : Prop where
@@ -134,17 +136,27 @@ structure GammHistory (cfg : Cfg) (n : Nat) (ops : List Op) : Prop where
   names : OpsNamesOK ops
   math : mathIsGamm cfg (C02.init n) ops = true
 
+/-- the WEAKER tie that the ledger theorems actually need: only the all-asset join, exit and `ExitSwapExactAmountOut`
+results are Model/Gamm's (`Call.tiedLP`); swap / estimate / single-asset-join results may be ANY numbers. -/
+structure LPGammHistory (cfg : Cfg) (n : Nat) (ops : List Op) : Prop where
+  cfg_ok : CfgOK cfg
+  names : OpsNamesOK ops
+  math : lpMathIsGamm cfg (C02.init n) ops = true
+
+theorem GammHistory.toLP {cfg : Cfg} {n : Nat} {ops : List Op} (h : GammHistory cfg n ops) : LPGammHistory cfg n ops :=
+  ⟨h.cfg_ok, h.names, lpMathIsGamm_of_mathIsGamm cfg ops _ h.math⟩
+
 /-- one message: tied results ⇒ records keep distinct names and positive reserves, and the contract is left exactly by
 F13 events. -/
 theorem message_contract_exact (cfg : Cfg) (hcfg : CfgOK cfg) {s s' : State} {m : Msg} (h : step s m = some s')
-    (hok : PoolsOK s) (hn : m.namesOK) (ht : ∀ c ∈ calls s m, c.tied cfg = true) :
+    (hok : PoolsOK s) (hn : m.namesOK) (ht : ∀ c ∈ calls s m, c.tiedLP cfg = true) :
     PoolsOK s' ∧ s'.clean = (s.clean && (calls s m).all (fun c => !c.entireReserve)) :=
   ⟨(step_bridge cfg hcfg h hok hn ht).1, (step_bridge cfg hcfg h hok hn ht).2.1⟩
 
 /-! ## 3. the composed theorems -/
 
 /-- FULL. A history whose pool math is Model/Gamm's is inside C02's pool-math contract IFF it contains no F13 event. -/
-theorem contract_iff_no_entire_reserve_swap {cfg : Cfg} {n : Nat} {ops : List Op} (h : GammHistory cfg n ops) :
+theorem contract_iff_no_entire_reserve_swap {cfg : Cfg} {n : Nat} {ops : List Op} (h : LPGammHistory cfg n ops) :
     (runOps (C02.init n) ops).clean = true ↔ entireReserveSwaps (C02.init n) ops = [] := by
   have := (runOps_bridge cfg h.cfg_ok ops (C02.init n) (init_PoolsOK n) h.names h.math).2
   rw [this]
@@ -152,13 +164,13 @@ theorem contract_iff_no_entire_reserve_swap {cfg : Cfg} {n : Nat} {ops : List Op
   rw [Bool.true_and, List.isEmpty_iff]
 
 /-- FULL. No reserve of any pool record is ever ≤ 0, and no record ever lists two denoms with the same name. -/
-theorem reserves_stay_positive {cfg : Cfg} {n : Nat} {ops : List Op} (h : GammHistory cfg n ops) :
+theorem reserves_stay_positive {cfg : Cfg} {n : Nat} {ops : List Op} (h : LPGammHistory cfg n ops) :
     PoolsOK (runOps (C02.init n) ops) :=
   (runOps_bridge cfg h.cfg_ok ops (C02.init n) (init_PoolsOK n) h.names h.math).1
 
 /-- FULL. **Pool account = reported reserves + donations** after every history of create / join / exit / swap / route /
 send messages whose pool-math results are those of Model/Gamm — unconditional except for F13 events. -/
-theorem pool_balance_eq_reserves_plus_donations {cfg : Cfg} {n : Nat} {ops : List Op} (h : GammHistory cfg n ops)
+theorem pool_balance_eq_reserves_plus_donations {cfg : Cfg} {n : Nat} {ops : List Op} (h : LPGammHistory cfg n ops)
     (hF13 : entireReserveSwaps (C02.init n) ops = []) (id : Nat) (d : Denom) :
     (runOps (C02.init n) ops).bal (.pool id) d =
       (runOps (C02.init n) ops).reserve id d + (runOps (C02.init n) ops).don id d :=
@@ -168,7 +180,7 @@ theorem pool_balance_eq_reserves_plus_donations {cfg : Cfg} {n : Nat} {ops : Lis
 donations (for every pool id and denom), share supply = reported total shares, supply = Σ of all balances, token supply =
 what the harness minted (nothing created or destroyed). Trader accounting (`C02.trader_accounting_*`) holds per message
 for any math and needs no restatement. -/
-theorem conservation {cfg : Cfg} {n : Nat} {ops : List Op} (h : GammHistory cfg n ops)
+theorem conservation {cfg : Cfg} {n : Nat} {ops : List Op} (h : LPGammHistory cfg n ops)
     (hF13 : entireReserveSwaps (C02.init n) ops = []) :
     let s := runOps (C02.init n) ops
     (∀ id d, s.bal (.pool id) d = s.reserve id d + s.don id d) ∧
@@ -180,6 +192,25 @@ theorem conservation {cfg : Cfg} {n : Nat} {ops : List Op} (h : GammHistory cfg 
   have := C02.non_share_supply_eq_funded name ops (C02.init n)
   have h0 : (C02.init n).supply (Denom.tok name) = 0 := rfl
   omega
+
+/-- the hypotheses are prefix-closed … -/
+theorem LPGammHistory.prefix {cfg : Cfg} {n : Nat} {pre post : List Op} (h : LPGammHistory cfg n (pre ++ post)) :
+    LPGammHistory cfg n pre :=
+  ⟨h.cfg_ok, fun m hm => h.names m (List.mem_append_left _ hm), by
+    have := h.math
+    rw [lpMathIsGamm_append, Bool.and_eq_true] at this
+    exact this.1⟩
+
+/-- … so the agreement of the ledgers holds AT EVERY MOMENT of a history without F13 events, not only at its end. -/
+theorem conservation_at_every_moment {cfg : Cfg} {n : Nat} {pre post : List Op} (h : LPGammHistory cfg n (pre ++ post))
+    (hF13 : entireReserveSwaps (C02.init n) (pre ++ post) = []) :
+    let s := runOps (C02.init n) pre
+    (∀ id d, s.bal (.pool id) d = s.reserve id d + s.don id d) ∧
+    (∀ id, s.supply (.share id) = s.shares id) ∧
+    (∀ d, s.supply d = s.total d) ∧
+    (∀ name, s.supply (.tok name) = funded name pre) := by
+  rw [entireReserveSwaps_append, List.append_eq_nil_iff] at hF13
+  exact conservation h.prefix hF13.1
 
 /-- FULL. Every F13 event of such a history is a `Pow ≤ 0` event of the actual balancer math. -/
 theorem entire_reserve_swap_is_pow_nonpos {cfg : Cfg} {n : Nat} {ops : List Op} (h : GammHistory cfg n ops) :
@@ -198,7 +229,7 @@ theorem conservation_equal_weights {cfg : Cfg} {n : Nat} {ops : List Op} (h : Ga
     (∀ d, s.supply d = s.total d) ∧
     (∀ name, s.supply (.tok name) = funded name ops) := by
   have hnil := entireReserveSwaps_nil_of_equal_weights cfg h.cfg_ok hw ops (C02.init n) (init_PoolsOK n) h.names h.math
-  exact ⟨(contract_iff_no_entire_reserve_swap h).mpr hnil, conservation h hnil⟩
+  exact ⟨(contract_iff_no_entire_reserve_swap h.toLP).mpr hnil, conservation h.toLP hnil⟩
 
 /-! ## the exception is real THROUGH THE ACTUAL MATH (finding F13) -/
 
@@ -303,7 +334,7 @@ theorem demo_is_gamm_history : GammHistory cfgD 1 demoOps :=
 example :
     let s := runOps (C02.init 1) demoOps
     s.bal (.pool 1) (T "aaa") = s.reserve 1 (T "aaa") + 7 ∧ s.supply (.share 2) = s.shares 2 := by
-  have h := conservation demo_is_gamm_history demo_math_is_gamm.2.2
+  have h := conservation demo_is_gamm_history.toLP demo_math_is_gamm.2.2
   refine ⟨?_, h.2.1 2⟩
   have := h.1 1 (T "aaa")
   have hd : (runOps (C02.init 1) demoOps).don 1 (T "aaa") = 7 := by decide +kernel
